@@ -76,6 +76,9 @@ def prefixes(tier, seed):
                                                    [[1, 2, 0], [0, 1, 0], [1, 0, 2]], [[3, 1, 0], [0, 1, 0], [0, 0, 1]], [[2, 0, 0], [0, 2, 0], [0, 0, 3]]]
     maxat = 48 if tier == "quick" else 96
     names = list(names) + ["P4mm-dd-8"]
+    for name in ("sc-1", "CsCl-2", "NaCl-prim-2", "bcc-conv-2"):
+        for S in Ss[:3] + Ss[4:5]:
+            yield {"xtal": name, "variant": "as-is", "S": S, "pm": "none", "mag": "ferro-z"}
     for name in names:
         c = cr[name]
         vars_ = ["as-is", "reversed"] if tier == "quick" else ["as-is", "reversed", "outside", "shifted"]
@@ -123,7 +126,8 @@ def run_case(case, seed, c, phs, fcs):
     k = case["sym"]
     if k not in phs:
         try:
-            phs[k] = phx.make_phonopy(c, case["S"], case["pm"], is_symmetry=case["sym"])
+            phs[k] = phx.make_phonopy(c, case["S"], case["pm"], is_symmetry=case["sym"],
+                                      **({"magmoms": [[0.0, 0.0, 1.5]] * len(c["symbols"])} if case.get("mag") == "ferro-z" else {}))
         except Exception as e:
             if case["pm"] == "auto":
                 return dict(ok=True, skipped="auto primitive matrix guess raised")
@@ -133,6 +137,10 @@ def run_case(case, seed, c, phs, fcs):
         return dict(ok=False, sig="C01/constructor-raised", msg="%s: %s" % (type(ph).__name__, str(ph)[:200]))
     if case["pot"] not in fcs:
         mdl = phx.model_for(ph, case["pot"], seed)
+        if case.get("mag") == "ferro-z":
+            # a ferromagnet magnetised along z (identical non-collinear moments): its crystal field is uniaxial, so the harmonic
+            # model respects the magnetic group (operations that map z onto +-z), not the cubic group of the positions
+            mdl = SP.SpringModel(rc=mdl.rc, seed=seed, central=mdl.central, axial=0.35)
         fcs[case["pot"]] = phx.supercell_fc(ph, mdl)
     ref = fcs[case["pot"]]
     scale = max(np.abs(ref).max(), 1e-3)
